@@ -228,8 +228,16 @@ Definition vnode_of (n : node) (info : ninfo) : vnode :=
   VNode (zip_ins (n_ins n) (ni_ityp info)) (ni_otyp info)
         (map (kind_of info) (n_attrs n) ++ graph_attrs info n).
 
-(* every op in the (nested) node list is one for which no adapter is registered at any version *)
+(* every default-domain op in the (nested) node list satisfies q *)
 Fixpoint quietb (q : string -> bool) (n : node) : bool :=
   match n with Node o d _ _ _ _ _ sb => (negb d || q o) && forallb (quietb q) sb end.
+(* no adapter is registered for op at any version >= lo: a node of this op at version >= lo is only re-stamped *)
+Definition no_adapter_from (keys : list (string * string * Z * bool)) (lo : Z) (op : string) : bool :=
+  negb (existsb (fun key => let '(d, o, v, up) := key in String.eqb d "" && String.eqb o op && (lo <=? v) && up) keys).
 Definition no_adapter (keys : list (string * string * Z * bool)) (op : string) : bool :=
   negb (existsb (fun key => let '(d, o, _, up) := key in String.eqb d "" && String.eqb o op && up) keys).
+(* explicit node versions (under default-domain nodes) are not below lo *)
+Fixpoint vergeb (lo : Z) (n : node) : bool :=
+  match n with
+  | Node _ d v _ _ _ _ sb => negb d || ((match v with Some x => lo <=? x | None => true end) && forallb (vergeb lo) sb)
+  end.
